@@ -784,6 +784,11 @@ EGLPNUM_TYPENAME_QSLIB_INTERFACE EGLPNUM_TYPENAME_QSdata *EGLPNUM_TYPENAME_QScop
 	p2->factorok = 0;
 	p2->simplex_display = p->simplex_display;
 	p2->simplex_scaling = p->simplex_scaling;
+	p2->lp->maxiter = p->lp->maxiter;
+	p2->lp->maxtime = p->lp->maxtime;
+	EGLPNUM_TYPENAME_EGlpNumCopy (p2->uobjlim, p->uobjlim);
+	EGLPNUM_TYPENAME_EGlpNumCopy (p2->lobjlim, p->lobjlim);
+	EGLPNUM_TYPENAME_EGlpNumCopy (p2->lp->objbound, p->lp->objbound);
 	EGLPNUM_TYPENAME_EGlpNumClearVar (p2->pricing->htrigger);
 	*(p2->pricing) = *(p->pricing);
 	/* I added this line because copying the EGLPNUM_TYPENAME_heap (as a pointer) doesn't make any
